@@ -31,11 +31,8 @@ def bracket_functions(model):
     idx = Index(model.prog)
     direct = set(idx.functions_with_role('mutex.'))
     exported = set(model.exported_functions())
-    out = set(direct & exported)
-    # exported wrappers around a locking function
-    for f in exported:
-        if f not in out and (idx.reachable(f) & direct):
-            out.add(f)
+    # exported functions that lock themselves or through a helper / another exported function
+    out = set(f for f in exported if f in direct or (idx.reachable(f) & direct))
     return idx, direct, sorted(out)
 
 
@@ -52,13 +49,14 @@ def c16(ctx):
             raise AnalysisBroken('anchor vanished: exported function %s' % f)
         ctx.check('completeness', f in bracket, ctx.site(f, m.fn_line(f)),
                   'exported function %s of the locking API never takes the lock' % f)
-    # WHO: mutex roles are called only by exported functions (no helper locks behind the API's back)
-    for f, role, line in idx.role_sites:
-        if role.startswith('mutex.'):
-            ctx.check('who-locks', f in exported, ctx.site(f, line),
-                      '%s called from non-exported function %s' % (role, f))
-    # bracket shape, per function and per path; callees that are not exported are opaque
-    allowed = set(exported)
+    # WHO: a helper that calls a mutex callback does nothing else (a pure lock/unlock wrapper); it is inlined below
+    for f in sorted(direct - set(exported)):
+        others = [r for g, r, _ in idx.role_sites if g == f and not r.startswith('mutex.')]
+        stores = [k for k, sites in idx.field_stores.items() if any(fn_ == f for fn_, _ in sites)]
+        ctx.check('who-locks', not others and not stores and not (idx.calls.get(f, set()) - direct), ctx.site(f, m.fn_line(f)),
+                  'helper %s calls a mutex callback and also does other work' % f)
+    # bracket shape, per function and per path; callees are opaque except exported functions and lock wrappers
+    allowed = set(exported) | direct
     npaths = 0
     for f in bracket:
         fn = m.prog.functions[f]
@@ -116,7 +114,7 @@ def c16(ctx):
                 for e in rel[1:u]:
                     if e['k'] == 'call_opaque':
                         reach = idx.reachable(e['name']) | {e['name']}
-                        ctx.check('no-nesting', not (reach & direct), ctx.site(e['fn'], e.get('line')),
+                        ctx.check('no-nesting', not (reach & (direct | set(bracket))), ctx.site(e['fn'], e.get('line')),
                                   '%s calls %s with the lock held, which can lock again' % (f, e['name']))
         if len(ctx.samples) < 8:
             ctx.sample({'function': f, 'paths': len(outs)})
@@ -190,7 +188,7 @@ def c17(ctx):
                     args[i] = m.ms.it.fresh(s, 'arg:' + p['name'], p['type'])
                 else:
                     s.pnull[args[i][1]] = False
-        outs = m.run(f, args, setup=setup, shallow=exported)
+        outs = m.run(f, args, setup=setup, shallow=exported | direct)
         for s, rv in outs:
             for seq in trace_paths(s.trace):
                 held = False
